@@ -43,6 +43,7 @@ func cmdRun(args []string) {
 	verbose := fs.Bool("v", false, "print paths")
 	models := fs.Bool("models", false, "models for every path")
 	jsonOut := fs.String("json", "", "write results json")
+	opaque := fs.Bool("opaque", false, "treat crypto/testify packages as opaque (testdirectory TLS plumbing)")
 	fs.Parse(args)
 	P, err := LoadProgram(*repo, *verif)
 	if err != nil {
@@ -55,6 +56,10 @@ func cmdRun(args []string) {
 		cfg.Workers = *workers
 		cfg.MaxPaths = *maxPaths
 		cfg.WantModels = *models
+		if *opaque {
+			cfg.OpaquePkgs = tdOpaque
+			cfg.ExtraPkgs["golang.org/x/exp/slices"] = true
+		}
 		res, err := Explore(P, cfg)
 		if err != nil {
 			fmt.Fprintln(os.Stderr, "explore:", err)
